@@ -1,4 +1,5 @@
 import KitModel.Go.Prelude
+import KitModel.Generated.C12
 /-!
 # Model of `concurrency.RunnerManager` and `concurrency.RunnerCloserManager` (property C12)
 
@@ -7,20 +8,23 @@ Two labelled transition systems (core Lean only; executed by `kitdrv C12`).
 ## `RM` — `runner.go`
 
 ```go
-func (r *RunnerManager) Add(runner ...Runner) error {          -- label `add k ok`
-    if r.running.Load() { return ErrManagerAlreadyStarted }    --   (atomic, see assumption A1)
-    r.lock.Lock(); defer r.lock.Unlock(); r.runners = append(r.runners, runner...); return nil }
+func (r *RunnerManager) Add(runner ...Runner) error {          -- `addCall k` (caller arrives)
+    r.lock.Lock(); defer r.lock.Unlock()                        -- `addDo k`: one atomic section
+    if r.running.Load() { return ErrManagerAlreadyStarted }    --   (G.addChecksRunningUnderLock)
+    r.runners = append(r.runners, runner...); return nil }     -- `addRet ok` (the call returns)
 func (r *RunnerManager) Run(ctx context.Context) error {       -- `runCall` (caller arrives)
-    if !r.running.CompareAndSwap(false, true) { return ErrManagerAlreadyStarted }   -- `runCas` / `runRejected`
+    r.lock.Lock()                                               -- `runCas` / `runRejected`: one atomic
+    if !r.running.CompareAndSwap(false, true) { r.lock.Unlock(); return ErrManagerAlreadyStarted }
+    runners := r.runners; r.lock.Unlock()                       --   section (G.runCasAndSnapshotUnderLock)
     ctx, cancel := context.WithCancel(ctx); defer cancel()
     errCh := make(chan error)
-    for _, runner := range r.runners { go func(runner Runner) {   -- `spawn` (one per iteration)
+    for _, runner := range runners { go func(runner Runner) {   -- `spawn` (one per iteration)
         defer cancel()                                            -- `cancelBy i` (after the send!)
         rErr := runner(ctx)                                       -- `start i` … `ctxDone i` … `ret i v`
         if rErr != nil && !errors.Is(rErr, context.Canceled) { errCh <- rErr; return }
         errCh <- nil }(runner) }                                  -- `deliver i` (rendez-vous with the collector)
     errObjs := make([]error, 0)
-    for i := 0; i < len(r.runners); i++ { err := <-errCh; if err != nil { errObjs = append(errObjs, err) } }
+    for i := 0; i < len(runners); i++ { err := <-errCh; if err != nil { errObjs = append(errObjs, err) } }
     return errors.Join(errObjs...) }                              -- `runRet` (+ deferred cancel)
 ```
 
@@ -29,14 +33,24 @@ Runner bodies are the environment: once started a runner may return any value at
 The harness behaviours (return nil / error / Canceled at once, or only after `ctx.Done()`) are
 particular environments, so every theorem covers them all.
 
-Assumption A1 (stated in design/C12.md): `Add` is one atomic action, i.e. no `Add` call overlaps the
-start of `Run` (the Go code reads `r.runners` in `Run` without the lock, so that overlap is a data
-race outside any sequentially consistent model).
+`G` = `Kit.Generated.C12`, the facts `factgen_c12` re-extracts from the source on every run: the
+guards and constants below that the source determines are *those definitions* (the `running` test
+and the snapshot of the runners are made under the lock — otherwise `addDo` is not an atomic step
+and the model refuses it; the deferred `cancel()` calls; the `Canceled` filter; the bounds of the
+collection loop).  `RMRacy` at the end of this file is the code before the `fix:` commit, where
+`Add` tested `running` before taking the lock and `Run` read `r.runners` unlocked.
 
 ## `RCM` — `closer.go`
 see the comment at `RCM.step`.
 -/
 namespace Kit.Runner
+
+namespace G
+export Kit.Generated.C12 (addChecksRunningUnderLock runCasAndSnapshotUnderLock runDefersCancel
+  goroutineDefersCancel filterDropsCanceled collectStart collectBoundPlus collectBoundMinus
+  addCloserRechecksClosingUnderLock acceptedCloserShapes closeRunnerMinRunners closerLoopStart
+  closerLoopBoundPlus closeFatalAtPlus)
+end G
 
 /-- What a runner returns: `nil`, a real error (identified by a number) or something that
 `errors.Is(_, context.Canceled)`. -/
@@ -46,10 +60,14 @@ inductive Ret where
   | canceled
   deriving DecidableEq, Repr, Hashable
 
+/-- Identity under which `context.Canceled` shows up in a joined error. -/
+def canceledId : Nat := 999
+
 /-- The error that survives the filter `rErr != nil && !errors.Is(rErr, context.Canceled)`. -/
 def Ret.real : Ret → Option Nat
   | .err e => some e
-  | _ => none
+  | .canceled => if G.filterDropsCanceled then none else some canceledId
+  | .nil => none
 
 /-- Program counter of the goroutine `Run` spawns for one runner. -/
 inductive RPc where
@@ -81,6 +99,9 @@ structure RM where
   pcs : List RPc := []            -- r.runners (one goroutine pc per registered runner)
   running : Bool := false         -- r.running
   pend : Nat := 0                 -- Run callers that have not done their CAS yet
+  addPend : List Nat := []        -- Add(k runners) callers waiting for the lock
+  addOk : Nat := 0                -- Add callers that registered their runners and have not returned yet
+  addRej : Nat := 0               -- Add callers that found `running` set and have not returned yet
   runPc : RunPc := .idle          -- the Run call that won the CAS
   spawned : Nat := 0              -- loop index of the `go func` loop
   collected : Nat := 0            -- loop index of the collection loop
@@ -94,7 +115,9 @@ structure RM where
 def RM.cancelled (s : RM) : Bool := s.parentCancelled || s.cancelCalled
 
 inductive RLabel where
-  | add (k : Nat) (ok : Bool)   -- `Add(k runners)` returned nil (`ok`) / ErrManagerAlreadyStarted
+  | addCall (k : Nat)           -- a goroutine calls Add(k runners)
+  | addDo (k : Nat)             -- its locked section: test `running`, append
+  | addRet (ok : Bool)          -- an Add call returns nil (`ok`) / ErrManagerAlreadyStarted
   | runCall                     -- a goroutine calls Run
   | runCas                      -- its CompareAndSwap succeeds
   | runRejected                 -- its CompareAndSwap fails: returns ErrManagerAlreadyStarted
@@ -108,12 +131,24 @@ inductive RLabel where
   | parentCancel                -- the caller's ctx is cancelled
   deriving DecidableEq, Repr, Hashable
 
+/-- `Add` and the start of `Run` exclude each other (both facts come from the source). -/
+def addAtomic : Bool := G.addChecksRunningUnderLock && G.runCasAndSnapshotUnderLock
+
+/-- Number of results the collection loop receives for `n` runners:
+`for i := collectStart; i < n + collectBoundPlus - collectBoundMinus; i++`. -/
+def collectTarget (n : Nat) : Nat := n + G.collectBoundPlus - G.collectBoundMinus - G.collectStart
+
 def RM.step (s : RM) : RLabel → Option RM
-  | .add k ok =>
-    if ok then
-      if s.running then none else some { s with pcs := s.pcs ++ List.replicate k .idle }
-    else
-      if s.running then some s else none
+  | .addCall k => some { s with addPend := s.addPend ++ [k] }
+  | .addDo k =>
+    if addAtomic = true ∧ k ∈ s.addPend then
+      if s.running then some { s with addPend := s.addPend.erase k, addRej := s.addRej + 1 }
+      else some { s with addPend := s.addPend.erase k, addOk := s.addOk + 1
+                         pcs := s.pcs ++ List.replicate k .idle }
+    else none
+  | .addRet ok =>
+    if ok then (if s.addOk > 0 then some { s with addOk := s.addOk - 1 } else none)
+    else (if s.addRej > 0 then some { s with addRej := s.addRej - 1 } else none)
   | .runCall => some { s with pend := s.pend + 1 }
   | .runCas =>
     if s.pend > 0 ∧ s.running = false then
@@ -144,17 +179,20 @@ def RM.step (s : RM) : RLabel → Option RM
     | _ => none
   | .cancelBy i =>
     match s.pcs[i]? with
-    | some (.delivered v) => some { s with pcs := s.pcs.set i (.done v), cancelCalled := true }
+    | some (.delivered v) =>
+      some { s with pcs := s.pcs.set i (.done v), cancelCalled := G.goroutineDefersCancel || s.cancelCalled }
     | _ => none
   | .runRet =>
-    if s.runPc = .active ∧ s.spawned = s.pcs.length ∧ s.collected = s.pcs.length then
-      some { s with runPc := .finished, result := some s.errs, cancelCalled := true }
+    if s.runPc = .active ∧ s.spawned = s.pcs.length ∧ s.collected = collectTarget s.pcs.length then
+      some { s with runPc := .finished, result := some s.errs
+                    cancelCalled := G.runDefersCancel || s.cancelCalled }
     else none
   | .parentCancel => some { s with parentCancelled := true }
 
 /-- Internal (unobserved) labels that may be enabled in `s`. -/
 def RM.taus (s : RM) : List RLabel :=
-  [.runCas, .spawn] ++ (List.range s.pcs.length).flatMap (fun i => [.deliver i, .cancelBy i])
+  [.runCas, .spawn] ++ s.addPend.eraseDups.map (fun k => .addDo k)
+  ++ (List.range s.pcs.length).flatMap (fun i => [.deliver i, .cancelBy i])
 
 inductive RM.Reach : RM → Prop where
   | init : RM.Reach {}
@@ -169,8 +207,9 @@ inductive RM.Steps : RM → RM → Prop where
 ## `RCM` — `closer.go`
 
 ```go
-func (c *RunnerCloserManager) Add(runner ...Runner) error {       -- `add k ok` (atomic, assumption A1)
-    if c.running.Load() { return ErrManagerAlreadyStarted }; return c.mngr.Add(runner...) }
+func (c *RunnerCloserManager) Add(runner ...Runner) error {       -- `addCall k`
+    if c.running.Load() { return ErrManagerAlreadyStarted }       -- `addOuterCheck k` (→ `addRetRejOuter`)
+    return c.mngr.Add(runner...) }                                -- `inner (addDo k)`, `inner (addRet ok)`
 func (c *RunnerCloserManager) AddCloser(closers ...any) error {   -- `acCall`
     if c.closing.Load() { return ErrManagerAlreadyClosed }        -- `acCheck` (passes) / `acRejectEarly`
     c.mngr.lock.Lock(); defer c.mngr.lock.Unlock()                -- needs the lock Run holds while closing
@@ -258,7 +297,8 @@ structure Decision where
 
 structure Cfg where
   grace : Option Nat := none   -- grace period (clock units); none = infinite
-  recheck : Bool := true       -- AddCloser re-checks `closing` under the lock (the repaired code)
+  /-- AddCloser re-checks `closing` under the lock: read from the source (`true` = repaired code). -/
+  recheck : Bool := G.addCloserRechecksClosingUnderLock
   deriving DecidableEq, Repr
 
 def Cfg.off (c : Cfg) : Nat := if c.grace.isSome then 1 else 0
@@ -281,6 +321,8 @@ structure RCM where
   ac0 : Nat := 0
   ac1 : Nat := 0
   ac2 : Nat := 0                  -- AddCloser callers: called / passed the first check / appended
+  addOuter : List Nat := []       -- Add(k) callers that have not tested c.running yet
+  addRejOuter : Nat := 0          -- Add callers rejected by that test, not returned yet
   rErr : List Nat := []
   nclosers : Nat := 0             -- len(c.closers) seen by Run under the lock
   cspawned : Nat := 0
@@ -297,7 +339,7 @@ structure RCM where
 
 inductive Label where
   | inner (a : RLabel)
-  | add (k : Nat) (ok : Bool)
+  | addCall (k : Nat) | addOuterCheck (k : Nat) | addRetRejOuter
   | acCall | acCheck | acRejectEarly | acAppend | acRetOk | acRejectLate
   | runCall | runCas | runRejected
   | prepare | launch | gotInner | lockClosing | cspawn
@@ -308,26 +350,51 @@ inductive Label where
   | tick (d : Nat)
   deriving DecidableEq, Repr, Hashable
 
+/-- Inner labels that do not need the inner `Run` to have been launched. -/
+def RLabel.anytime : RLabel → Bool
+  | .parentCancel | .addDo _ | .addRet _ => true
+  | _ => false
+
 /-- Which RM labels the closer manager can perform on its inner manager, and when. -/
 def RCM.innerAllowed (s : RCM) : RLabel → Bool
-  | .add _ _ | .runCall | .runRejected => false
+  | .addCall _ | .runCall | .runRejected => false
+  | .addDo _ => !s.lock            -- mngr.lock is the inner manager's lock; Run holds it while closing
   | .ctxDone i => s.closeIdx != some i
   | .ret i v => if s.closeIdx = some i then v = .nil && (s.inner.cancelled || s.closed) else true
   | _ => true
 
 def timerExpired (now : Nat) (dl : Nat) : Bool := decide (dl ≤ now)
 
+/-! The closer collection loop
+`for i := closerLoopStart; i < len(c.closers) + closerLoopBoundPlus; i++ {
+   if i == len(c.closers) + closeFatalAtPlus { close(c.closeFatalShutdown) }; errs[i] = <-errCh }`
+with `i = closerLoopStart + ccollected` and `len(c.closers) = nclosers` (constants from the source). -/
+
+/-- The loop condition holds: another iteration will run. -/
+def RCM.inLoop (s : RCM) : Bool :=
+  decide (G.closerLoopStart + s.ccollected < s.nclosers + G.closerLoopBoundPlus)
+
+/-- This iteration is the one that closes `closeFatalShutdown` before receiving. -/
+def RCM.atCloseFatal (s : RCM) : Bool :=
+  decide (G.closerLoopStart + s.ccollected = s.nclosers + G.closeFatalAtPlus)
+
+/-- The collector is at `errs[i] = <-errCh` of the current iteration. -/
+def RCM.canReceive (s : RCM) : Bool := s.inLoop && (!s.atCloseFatal || s.cfs)
+
 def RCM.step (cfg : Cfg) (s : RCM) : Label → Option RCM
   | .inner a =>
-    if s.innerAllowed a = true ∧ (a = .parentCancel ∨ s.opc.rank ≥ 3) then
+    if s.innerAllowed a = true ∧ (a.anytime = true ∨ s.opc.rank ≥ 3) then
       (s.inner.step a).map fun r => { s with inner := r }
     else none
-  | .add k ok =>
-    if ok then
-      if s.running then none
-      else some { s with inner := { s.inner with pcs := s.inner.pcs ++ List.replicate k .idle } }
-    else
-      if s.running then some s else none
+  | .addCall k => some { s with addOuter := s.addOuter ++ [k] }
+  | .addOuterCheck k =>
+    if k ∈ s.addOuter then
+      if s.running then some { s with addOuter := s.addOuter.erase k, addRejOuter := s.addRejOuter + 1 }
+      else some { s with addOuter := s.addOuter.erase k
+                         inner := { s.inner with addPend := s.inner.addPend ++ [k] } }
+    else none
+  | .addRetRejOuter =>
+    if s.addRejOuter > 0 then some { s with addRejOuter := s.addRejOuter - 1 } else none
   | .acCall => some { s with ac0 := s.ac0 + 1 }
   | .acCheck =>
     if s.ac0 > 0 ∧ s.closing = false then some { s with ac0 := s.ac0 - 1, ac1 := s.ac1 + 1 } else none
@@ -351,7 +418,7 @@ def RCM.step (cfg : Cfg) (s : RCM) : Label → Option RCM
     if s.pendRun > 0 ∧ s.running = true then some { s with pendRun := s.pendRun - 1 } else none
   | .prepare =>
     if s.opc = .entered then
-      if s.inner.pcs.length > 0 then
+      if G.closeRunnerMinRunners ≤ s.inner.pcs.length then
         some { s with opc := .prepared, closeIdx := some s.inner.pcs.length
                       inner := { s.inner with pcs := s.inner.pcs ++ [.idle] } }
       else some { s with opc := .prepared }
@@ -381,7 +448,7 @@ def RCM.step (cfg : Cfg) (s : RCM) : Label → Option RCM
   | .ccollect j =>
     match s.cpcs[j]? with
     | some (.returned v) =>
-      if s.opc = .closing ∧ s.cspawned = s.nclosers ∧ (s.ccollected + 1 < s.nclosers ∨ s.cfs = true) then
+      if s.opc = .closing ∧ s.cspawned = s.nclosers ∧ s.canReceive = true then
         some { s with cpcs := s.cpcs.set j (.collected v)
                       ccollected := s.ccollected + 1
                       cerrs := match v with
@@ -417,18 +484,18 @@ def RCM.step (cfg : Cfg) (s : RCM) : Label → Option RCM
   | .ffire =>
     if s.fpc = .willFire then some { s with fpc := .ready, fired := true } else none
   | .fcollect =>
-    if s.fpc = .ready ∧ s.opc = .closing ∧ s.cspawned = s.nclosers
-        ∧ (s.ccollected + 1 < s.nclosers ∨ s.cfs = true) then
+    if s.fpc = .ready ∧ s.opc = .closing ∧ s.cspawned = s.nclosers ∧ s.canReceive = true then
       some { s with fpc := .collected, ccollected := s.ccollected + 1 }
     else none
   | .closeFatal =>
-    if s.opc = .closing ∧ s.cspawned = s.nclosers ∧ s.ccollected + 1 = s.nclosers ∧ s.cfs = false then
+    if s.opc = .closing ∧ s.cspawned = s.nclosers ∧ s.inLoop = true ∧ s.atCloseFatal = true
+        ∧ s.cfs = false then
       match s.fpc with
       | .parked _ => some { s with cfs := true, fpc := .ready, decision := some ⟨false, false, true⟩ }
       | _ => some { s with cfs := true }
     else none
   | .finish =>
-    if s.opc = .closing ∧ s.cspawned = s.nclosers ∧ s.ccollected = s.nclosers then
+    if s.opc = .closing ∧ s.cspawned = s.nclosers ∧ s.inLoop = false then
       some { s with opc := .finished, retErr := s.rErr ++ s.cerrs, stopped := true, lock := false }
     else none
   | .runRet => if s.opc = .finished then some { s with opc := .returned } else none
@@ -454,6 +521,7 @@ def RCM.step (cfg : Cfg) (s : RCM) : Label → Option RCM
 events, user runner/closer body events, the fatal action and clock ticks. Body events of the
 extra closeCh runner are internal too. -/
 def RCM.taus (s : RCM) : List Label :=
+  (s.addOuter.eraseDups.map fun k => .addOuterCheck k) ++ (s.inner.addPend.eraseDups.map fun k => .inner (.addDo k)) ++
   [.acCheck, .acAppend, .runCas, .prepare, .launch, .gotInner, .lockClosing, .cspawn, .farm, .fenterFire,
    .fenterStop, .fpark, .fcollect, .closeFatal, .finish, .closeS1, .closeS2,
    .inner .runCas, .inner .spawn, .inner .runRet]
@@ -483,6 +551,51 @@ def RM.runLabels (s : RM) : List RLabel → Option RM
 end Kit.Runner
 
 namespace Kit.Runner
+
+/-! ## `RMRacy` — `RunnerManager` before the `fix:` commit (witness model only)
+
+`Add` tested `running` and *then* took the lock (`addCheck`, `addAppend`), `Run` ranged over
+`r.runners` without the lock (`snap` = what it saw) and its collection loop re-read
+`len(r.runners)` on every iteration.  Only what the two witnesses need is modelled. -/
+
+structure RMRacy where
+  pcs : List RPc := []
+  running : Bool := false
+  passed : Nat := 0          -- Add(1 runner) callers between their test and their append
+  accepted : Nat := 0        -- Add calls that returned nil
+  active : Bool := false
+  snap : Nat := 0            -- number of runners the spawn loop ranged over
+  collected : Nat := 0
+  returned : Bool := false
+  deriving DecidableEq, Repr
+
+inductive RacyLabel where
+  | addCheck | addAppend | runCas | start (i : Nat) | ret (i : Nat) | deliver (i : Nat) | runRet
+  deriving DecidableEq, Repr
+
+def RMRacy.step (s : RMRacy) : RacyLabel → Option RMRacy
+  | .addCheck => if s.running then none else some { s with passed := s.passed + 1 }
+  | .addAppend =>
+    if s.passed > 0 then
+      some { s with passed := s.passed - 1, accepted := s.accepted + 1, pcs := s.pcs ++ [.idle] }
+    else none
+  | .runCas =>
+    if s.running then none else some { s with running := true, active := true, snap := s.pcs.length }
+  | .start i =>
+    if s.active = true ∧ i < s.snap ∧ s.pcs[i]? = some .idle then some { s with pcs := s.pcs.set i .started }
+    else none
+  | .ret i => if s.pcs[i]? = some .started then some { s with pcs := s.pcs.set i (.returned .nil) } else none
+  | .deliver i =>
+    if s.active = true ∧ s.pcs[i]? = some (.returned .nil) ∧ s.collected < s.pcs.length then
+      some { s with pcs := s.pcs.set i (.done .nil), collected := s.collected + 1 }
+    else none
+  | .runRet =>
+    if s.active = true ∧ ¬ (s.collected < s.pcs.length) then some { s with active := false, returned := true }
+    else none
+
+def RMRacy.runLabels (s : RMRacy) : List RacyLabel → Option RMRacy
+  | [] => some s
+  | a :: as => (s.step a).bind fun s' => RMRacy.runLabels s' as
 
 /-- Executions with their event log (most recent event first). -/
 inductive RCM.Exec (cfg : Cfg) : List Label → RCM → Prop where
